@@ -917,6 +917,11 @@ func runCore(seed int64, nHist, nOps int, out *bufio.Writer, thorough bool) *cor
 			}
 		}
 		w.acl = acl
+		// one history in four mixes orderings between its replicas
+		mixed := sk != "fww" && h%4 == 1
+		if mixed {
+			stats.OpHist["mixedOrderings"]++
+		}
 		fmt.Fprintf(out, "H %d %d shared=%v bounded=%v sort=%s acl=%v keyed=%v\n", h, hs, shared, bounded, sk, acl, keyed)
 		for i := 0; i < nRep; i++ {
 			wr := fmt.Sprintf("w%d", i)
@@ -942,7 +947,12 @@ func runCore(seed int64, nHist, nOps int, out *bufio.Writer, thorough bool) *cor
 					deny = append(deny, "bang")
 				}
 			}
-			w.newReplica(id, wr, sk, deny)
+			rsk := sk
+			if mixed {
+				// every replica its own ordering (both respect causality): a writer's head order need not be the reader's
+				rsk = []string{"lww", "hash"}[r.Intn(2)]
+			}
+			w.newReplica(id, wr, rsk, deny)
 		}
 		if acl && r.Intn(3) == 0 {
 			// a long chain with an invalid entry near its root, merged in one go into an empty replica:
@@ -962,22 +972,37 @@ func runCore(seed int64, nHist, nOps int, out *bufio.Writer, thorough bool) *cor
 			w.observe(dst)
 			stats.OpHist["bigTamperJoin"]++
 		}
-		if (shared || sk != "lww") && h%3 == 1 {
+		if (shared || sk != "lww" || mixed) && h%3 == 1 {
 			// flat start: every replica appends one entry, then two of them merge everybody — logs in which every
 			// entry is a head (with equal clocks when writers are shared), observed before anything links them
+			// (tampered copies are sources of joins only: they share their source's writer, an append there would tie)
+			var live []int
 			for i := range w.reps {
+				if !w.reps[i].tampered {
+					live = append(live, i)
+				}
+			}
+			for _, i := range live {
 				w.r = r
 				w.doAppend(i, 0)
 				w.observe(i)
 			}
-			for _, dst := range []int{0, len(w.reps) - 1} {
-				for j := range w.reps {
+			for _, dst := range []int{live[0], live[len(live)-1]} {
+				for _, j := range live {
 					if j != dst {
 						w.doJoin(dst, j, -1)
 						w.observe(dst)
 					}
 				}
 			}
+			// then the first replica writes an entry naming all of them (in ITS order) and the last one takes it over:
+			// a single head with several predecessors, linearised by a reader that may order them differently
+			last := live[len(live)-1]
+			w.r = r
+			w.doAppend(live[0], 0)
+			w.observe(live[0])
+			w.doJoin(last, live[0], -1)
+			w.observe(last)
 			stats.OpHist["flatStart"]++
 		}
 		if maxOps >= 0 && ops > maxOps {
